@@ -8,16 +8,22 @@ Definition set_node (g : graph) (n : nat) (k : kind) (o : list nat) (i : list (n
   upd_node g n (fun nd => mkNode k (nid nd) o i).
 
 (* ---------- resolve ---------- *)
-Definition idtable := list (option nat * nat).      (* newest binding first *)
-Definition oeqb (a b : option nat) : bool :=
-  match a, b with Some x, Some y => x =? y | None, None => true | _, _ => false end.
-Fixpoint tbl_find (k : option nat) (t : idtable) : option nat :=
+Definition idtable := list (option (list nat) * nat).      (* newest binding first *)
+Fixpoint leqb (a b : list nat) : bool :=
+  match a, b with
+  | [], [] => true
+  | x :: a', y :: b' => (x =? y) && leqb a' b'
+  | _, _ => false
+  end.
+Definition oeqb (a b : option (list nat)) : bool :=
+  match a, b with Some x, Some y => leqb x y | None, None => true | _, _ => false end.
+Fixpoint tbl_find (k : option (list nat)) (t : idtable) : option nat :=
   match t with [] => None | (k', n) :: r => if oeqb k' k then Some n else tbl_find k r end.
 
 (* insert(): a truthy id (not None, not '') may be bound only once *)
 Definition tbl_insert (g : graph) (t : idtable) (n : nat) : res idtable :=
   let id := nid (getn g n) in
-  let truthy := match id with Some k => negb (k =? 0) | None => false end in
+  let truthy := match id with Some (_ :: _) => true | _ => false end in
   if truthy && match tbl_find id t with Some _ => true | None => false end
   then LibErr EResolveReference
   else Ok ((id, n) :: t).
